@@ -59,4 +59,7 @@ def check_framing(resp, method):
             bad.append('content-length-mismatch')
     if cl and not cl[0].isdigit():
         bad.append('content-length-not-a-number')
+    # HEAD is HTTP's exception (its Content-Length describes the GET body); OPTIONS is not
+    if method == 'OPTIONS' and cl and cl[0].isdigit() and int(cl[0]) != len(resp['body']):
+        bad.append('options-content-length')
     return bad
